@@ -38,6 +38,9 @@ pub enum Reply {
     /// a success response that is NOT the answer to the StartTLS request (foreign message id: 0, id+1
     /// or id+7), followed in the same segment by the real answer: a refusal
     ForeignSuccessThenCode,
+    /// an answer under the right message id whose LDAPResult is ill-formed (no elements, INTEGER for the code, primitive
+    /// instead of constructed, elements in the wrong order); the server then stands ready for a handshake
+    MalformedResult,
 }
 
 #[derive(Clone, Copy, Debug, PartialEq, Eq, Hash, Serialize, Deserialize)]
@@ -66,6 +69,10 @@ pub struct Case {
     /// 3 = a clone() of the finished settings is used; 4 = through the blocking LdapConn API
     #[serde(default)]
     pub build: u8,
+    /// what follows host:port in the URL: 0 nothing, 1 "/", 2 a base DN and a known URL extension (bindname), 3 base,
+    /// attributes, scope and filter
+    #[serde(default)]
+    pub url_tail: u8,
 }
 
 #[derive(Debug, Default)]
@@ -146,6 +153,19 @@ async fn serve(listener: TcpListener, c: Case, log: Arc<Mutex<ServerLog>>) {
                 out.extend_from_slice(&RespMsg::new(fid, Resp::Result { app: 24, res: Res::ok(""), sasl: None, exop_name: Some(STARTTLS_OID.into()), exop_val: None }).encode());
                 out.extend_from_slice(&RespMsg::new(id, Resp::Result { app: 24, res: Res::code(c.rc.max(1), "no TLS for you"), sasl: None, exop_name: Some(STARTTLS_OID.into()), exop_val: None }).encode());
             }
+            Reply::MalformedResult => {
+                let op: &[u8] = match c.inject_kind % 4 {
+                    0 => &[0x78, 0x00],
+                    1 => &[0x78, 0x07, 0x02, 0x01, 0x00, 0x04, 0x00, 0x04, 0x00],
+                    2 => &[0x58, 0x00],
+                    _ => &[0x78, 0x07, 0x04, 0x00, 0x0a, 0x01, 0x00, 0x04, 0x00],
+                };
+                let idb = ber::encode(&ber::Tlv::int(id));
+                out.push(0x30);
+                out.push((idb.len() + op.len()) as u8);
+                out.extend_from_slice(&idb);
+                out.extend_from_slice(op);
+            }
             Reply::NonExtended => out.extend_from_slice(&RespMsg::new(id, Resp::result(1, Res::ok(""))).encode()),
             Reply::Garbage => {
                 out.extend_from_slice(&c.garbage);
@@ -202,7 +222,7 @@ async fn serve(listener: TcpListener, c: Case, log: Arc<Mutex<ServerLog>>) {
             return;
         }
     };
-    let hs_guard = if c.scheme == Scheme::StartTls && matches!(c.reply, Reply::Code | Reply::ForeignSuccessThenCode) { Duration::from_millis(1500) } else { Duration::from_secs(10) };
+    let hs_guard = if c.scheme == Scheme::StartTls && matches!(c.reply, Reply::Code | Reply::ForeignSuccessThenCode | Reply::MalformedResult) { Duration::from_millis(1500) } else { Duration::from_secs(10) };
     match tokio::time::timeout(hs_guard, acc.accept(sock)).await {
         Ok(Ok(mut tls)) => {
             log.lock().unwrap().handshake_done = true;
@@ -266,7 +286,8 @@ fn run_case(c: &Case) -> Result<(ClientOut, ServerLog), Fail> {
         if c.build == 3 {
             settings = settings.clone();
         }
-        let url = format!("{}://{}:{}", if c.scheme == Scheme::Ldaps { "ldaps" } else { "ldap" }, c.host, port);
+        let tail = ["", "/", "/dc=example,dc=org????bindname=cn%3Dadmin%2Cdc%3Dexample", "/dc=example,dc=org?cn?sub?(cn=a)"][c.url_tail as usize % 4];
+        let url = format!("{}://{}:{}{}", if c.scheme == Scheme::Ldaps { "ldaps" } else { "ldap" }, c.host, port, tail);
         let mut out = ClientOut { connected: Ok(()), bind: None };
         if c.build == 4 {
             // the blocking API: establishment and the probe bind on a thread of their own
@@ -286,7 +307,13 @@ fn run_case(c: &Case) -> Result<(ClientOut, ServerLog), Fail> {
             });
             match tokio::time::timeout(Duration::from_secs(25), jh).await {
                 Err(_) => return Err(Fail::new("env-timeout", "blocking connection establishment exceeded the 25 s guard")),
-                Ok(Err(_)) => return Err(Fail::new(crate::runner::panic_sig(&crate::runner::take_panics().into_iter().last().unwrap_or_default()), "LdapConn::with_settings panicked")),
+                Ok(Err(_)) => {
+                    let p = crate::runner::take_panics().into_iter().last().unwrap_or_default();
+                    if c.reply != Reply::MalformedResult {
+                        return Err(Fail::new(crate::runner::panic_sig(&p), "LdapConn::with_settings panicked"));
+                    }
+                    out.connected = Err("panic".into());
+                }
                 Ok(Ok((connected, bind))) => {
                     out.connected = connected;
                     out.bind = bind;
@@ -296,7 +323,22 @@ fn run_case(c: &Case) -> Result<(ClientOut, ServerLog), Fail> {
             let l = std::mem::take(&mut *log.lock().unwrap());
             return Ok((out, l));
         }
-        match tokio::time::timeout(Duration::from_secs(20), LdapConnAsync::with_settings(settings, &url)).await {
+        use futures_util::FutureExt;
+        let established = tokio::time::timeout(Duration::from_secs(20), std::panic::AssertUnwindSafe(LdapConnAsync::with_settings(settings, &url)).catch_unwind()).await;
+        let established = match established {
+            Err(t) => Err(t),
+            Ok(Ok(r)) => Ok(r),
+            Ok(Err(_)) => {
+                // a panic in the CALLER's task while it converts an ill-formed result: not a handle, hence "failed"
+                // for this property (and outside C11, which protects the driver); anywhere else it is reported
+                let p = crate::runner::take_panics().into_iter().last().unwrap_or_default();
+                if c.reply != Reply::MalformedResult {
+                    return Err(Fail::new(crate::runner::panic_sig(&p), format!("connection establishment panicked: {}", p)));
+                }
+                Ok(Err(ldap3::LdapError::AdapterInit("panic".into())))
+            }
+        };
+        match established {
             Err(_) => return Err(Fail::new("env-timeout", "connection establishment exceeded the 20 s guard")),
             Ok(Err(e)) => out.connected = Err(crate::sim::err_kind(&e)),
             Ok(Ok((conn, mut ldap))) => {
@@ -400,9 +442,9 @@ pub fn cells() -> Vec<(Scheme, Verify, Cert, Reply, Post)> {
     let mut v = Vec::new();
     for verify in [Verify::Default, Verify::Disabled, Verify::TestCa] {
         for cert in [Cert::Good, Cert::WrongName, Cert::SelfSigned, Cert::Expired, Cert::DnsOnly] {
-            for reply in [Reply::Success, Reply::Code, Reply::NonExtended, Reply::ForeignSuccessThenCode] {
+            for reply in [Reply::Success, Reply::Code, Reply::NonExtended, Reply::ForeignSuccessThenCode, Reply::MalformedResult] {
                 for post in [Post::Proper, Post::HandshakeGarbage, Post::InjectThenProper] {
-                    if matches!(reply, Reply::Code | Reply::ForeignSuccessThenCode) && post == Post::HandshakeGarbage {
+                    if matches!(reply, Reply::Code | Reply::ForeignSuccessThenCode | Reply::MalformedResult) && post != Post::Proper && !(reply != Reply::MalformedResult && post == Post::InjectThenProper) {
                         continue;
                     }
                     v.push((Scheme::StartTls, verify, cert, reply, post));
@@ -457,6 +499,7 @@ fn lane_run(ctx: &Ctx, known: &[KnownFinding]) -> LaneReport {
                 .into(),
                 split_writes: (r >> 33) % 2 == 0,
                 build: if round == 0 { (i % 5) as u8 } else { ((r >> 40) % 5) as u8 },
+                url_tail: if round == 0 { ((i / 5) % 4) as u8 } else { ((r >> 44) % 4) as u8 },
             };
             let t0 = std::time::Instant::now();
             eval_case(&mut rep, known, &c, |obs| check(&c, obs));
@@ -488,7 +531,7 @@ pub fn property() -> Property {
     Property {
         id: "C17",
         level: "fault_enumeration",
-        rule: "EXHAUSTIVE product of scheme {ldap+StartTLS, ldaps} x verification {default trust store, no_tls_verify, custom connector trusting the test CA} x server certificate {CA-signed for localhost/127.0.0.1/::1, CA-signed for another name, self-signed, expired, CA-signed for the DNS name localhost only (to be refused when the URL names the host by address)} x StartTLS reply {success, non-zero code (after which the server still stands ready for a handshake, so a client that ignores the code is exposed), garbage then close, close, well-formed non-extended response, a success bearing a foreign message id (0, id+1, id+7) ahead of the real refusal} x post-reply behaviour {proper handshake, handshake garbage, forged cleartext LDAP responses for the next message ids in the same segment as the StartTLS response then a proper handshake} (210 cells) plus a sweep of 28 non-zero StartTLS result codes (incl. 5, 6, 10, 14) on the cell where everything else would succeed, each with generated parameters (result code, garbage bytes, forged PDU kind, host spelling, server write segmentation, the way the settings object is built: new() / default() base, two orders of the builder calls, a clone, or the blocking LdapConn API); thorough repeats the product 60 times with fresh parameters. The harness's server (tokio + native-tls acceptor, committed test PKI) records every raw byte it receives. Oracle: cleartext holds exactly one StartTLS ExtendedRequest (or nothing on ldaps) and otherwise only TLS records; establishment returns Ok only if the reply was a success, the handshake completed on the server and the certificate is acceptable under the effective settings (and must return Ok when all of that holds for a real StartTLS success); after Ok a bind is received inside TLS, returns the token sent inside TLS (never the forged cleartext one) and its password never appears in the raw log. Non-trivial: every cell (each contains an adversarial or trust-decision element); distinct = cell + parameters.",
+        rule: "EXHAUSTIVE product of scheme {ldap+StartTLS, ldaps} x verification {default trust store, no_tls_verify, custom connector trusting the test CA} x server certificate {CA-signed for localhost/127.0.0.1/::1, CA-signed for another name, self-signed, expired, CA-signed for the DNS name localhost only (to be refused when the URL names the host by address)} x StartTLS reply {success, non-zero code (after which the server still stands ready for a handshake, so a client that ignores the code is exposed), garbage then close, close, well-formed non-extended response, a success bearing a foreign message id (0, id+1, id+7) ahead of the real refusal, an answer whose LDAPResult is ill-formed} x post-reply behaviour {proper handshake, handshake garbage, forged cleartext LDAP responses for the next message ids in the same segment as the StartTLS response then a proper handshake} (225 cells) plus a sweep of 28 non-zero StartTLS result codes (incl. 5, 6, 10, 14) on the cell where everything else would succeed, each with generated parameters (result code, garbage bytes, forged PDU kind, host spelling, server write segmentation, what follows host:port in the URL (nothing, a base DN with a known URL extension, search parameters), the way the settings object is built: new() / default() base, two orders of the builder calls, a clone, or the blocking LdapConn API); thorough repeats the product 60 times with fresh parameters. The harness's server (tokio + native-tls acceptor, committed test PKI) records every raw byte it receives. Oracle: cleartext holds exactly one StartTLS ExtendedRequest (or nothing on ldaps) and otherwise only TLS records; establishment returns Ok only if the reply was a success, the handshake completed on the server and the certificate is acceptable under the effective settings (and must return Ok when all of that holds for a real StartTLS success); after Ok a bind is received inside TLS, returns the token sent inside TLS (never the forged cleartext one) and its password never appears in the raw log. Non-trivial: every cell (each contains an adversarial or trust-decision element); distinct = cell + parameters.",
         assumptions: &[
             "real sockets and wall time: verdicts are functions of the cell, timing is never borderline (guards of 10-20 s yield an env-* failure = inconclusive)",
             "only the default tls-native backend (OpenSSL) is exercised; the test CA is not in the system trust store, so 'default' verification must refuse every test certificate",
